@@ -33,7 +33,7 @@ fn summarise<T>(o: &cs::Outcome<T>) -> Value {
         "ok": o.ok(),
         "err": match &o.result { Some(Err(e)) => Some(e.clone()), _ => None },
         "errors": o.errors.len(),
-        "error_text": o.errors.iter().take(3).collect::<Vec<_>>(),
+        "error_text": o.errors.iter().take(300).collect::<Vec<_>>(),
     })
 }
 
@@ -207,6 +207,10 @@ pub fn run_child(exe: &Path, wrapper: &[&str], arch: &Path, src: &Path, out: &Pa
     ChildRun { status: status_s, last_op, panic, report, timed_out, stderr_tail: tail }
 }
 
+fn mask_out(text: &str, out: &Path) -> String {
+    text.replace(&*out.to_string_lossy(), "<OUT>")
+}
+
 fn op_class(op: &str) -> String {
     op.split_whitespace().next().unwrap_or("none").to_string()
 }
@@ -225,7 +229,7 @@ fn is_highest_hunk_of_incomplete_band(s: &Subject, raw: &fmt06::Raw, relpath: &s
     false
 }
 
-fn judge(run: &Run, s: &Subject, raw_pre: &fmt06::Raw, base_errors: &BTreeMap<u32, u64>, d: &Damage, arch: &Path, out: &Path, cr: &ChildRun, replay: &Value) {
+fn judge(run: &Run, s: &Subject, raw_pre: &fmt06::Raw, base_errors: &BTreeMap<u32, Vec<String>>, d: &Damage, arch: &Path, out: &Path, cr: &ChildRun, replay: &Value) {
     let dc = d.class();
     // 1. terminated normally
     if cr.timed_out {
@@ -285,7 +289,6 @@ fn judge(run: &Run, s: &Subject, raw_pre: &fmt06::Raw, base_errors: &BTreeMap<u3
             continue;
         }
         run.count("versions_restored_after_damage", 1);
-        let n_errors = br["restore"]["errors"].as_u64().unwrap_or(0);
         let deps = damage::dependencies(raw_pre, *b);
         let band_uses_damaged = deps.values().any(|ds| ds.contains(&d.relpath));
         if decodable_hunk && band_uses_damaged {
@@ -298,8 +301,15 @@ fn judge(run: &Run, s: &Subject, raw_pre: &fmt06::Raw, base_errors: &BTreeMap<u3
             Err(_) => Snapshot::new(),
         };
         let expected = &s.expected[b];
+        let error_texts: Vec<&str> = br["restore"]["error_text"].as_array().map(|a| a.iter().filter_map(|v| v.as_str()).collect()).unwrap_or_default();
+        let damaged_block = path_class(&d.relpath) == "block";
         let mut silent_loss: Option<String> = None;
         for (p, node) in expected {
+            // directories that exist only because restoring an entry created the directories
+            // above it are not entries of the version (and carry the time of the restore)
+            if !deps.contains_key(p) {
+                continue;
+            }
             let touched = deps.get(p).map(|ds| ds.contains(&d.relpath)).unwrap_or(false);
             let same = {
                 let mut e1 = Snapshot::new();
@@ -324,7 +334,16 @@ fn judge(run: &Run, s: &Subject, raw_pre: &fmt06::Raw, base_errors: &BTreeMap<u3
                 // (a damaged BANDHEAD makes its band look deleted, and stitching skips deleted
                 // bands by design: the statement promises reporting for hunks and blocks)
                 run.count("touched_entries_judged", 1);
-                if !same && n_errors <= base_errors.get(b).copied().unwrap_or(0) {
+                // for a damaged block the error names the file; for a damaged hunk the entries are
+                // gone and only a band-level error is possible
+                let reported = if damaged_block {
+                    error_texts.iter().any(|t| t.contains(&format!("for {p}:")) || t.contains(&format!("{p}\"")))
+                } else {
+                    // an error that the undamaged archive does not produce
+                    let base = base_errors.get(b).cloned().unwrap_or_default();
+                    error_texts.iter().any(|t| !base.contains(&mask_out(t, out)))
+                };
+                if !same && !reported {
                     silent_loss = Some(format!("b{b:04} {p}: expected {} got {:?}", tree::describe(node), actual.get(p).map(tree::describe)));
                 }
             }
@@ -332,7 +351,7 @@ fn judge(run: &Run, s: &Subject, raw_pre: &fmt06::Raw, base_errors: &BTreeMap<u3
         if let Some(what) = silent_loss {
             run.violation(
                 format!("damaged-entry-silently-dropped-or-altered@{dc}"),
-                format!("{}: restore of b{b:04} returned Ok and reported no error, but {what}", d.desc()),
+                format!("{}: restore of b{b:04} returned Ok and reported no error for this entry, but {what}", d.desc()),
                 replay.clone(),
             );
             return;
@@ -364,7 +383,7 @@ fn judge(run: &Run, s: &Subject, raw_pre: &fmt06::Raw, base_errors: &BTreeMap<u3
     }
 }
 
-fn one_damage(run: &Run, s: &Subject, raw_pre: &fmt06::Raw, base_errors: &BTreeMap<u32, u64>, exe: &Path, wrapper: &[&str], budget: usize, case: u64, di: usize, d: &Damage, counter: &str) {
+fn one_damage(run: &Run, s: &Subject, raw_pre: &fmt06::Raw, base_errors: &BTreeMap<u32, Vec<String>>, exe: &Path, wrapper: &[&str], budget: usize, case: u64, di: usize, d: &Damage, counter: &str) {
     let arch = damage::damaged_copy(s, d, run.seed);
     let out = s.world.sc.fresh("out");
     std::fs::create_dir_all(&out).unwrap();
@@ -407,10 +426,18 @@ pub fn run(tier: Tier, replay: Option<Value>) -> i32 {
         };
         let base_ops = base_rep["storage_ops"].as_u64().unwrap_or(1000) as usize;
         let budget = base_ops * 1000;
-        let base_errors: BTreeMap<u32, u64> = s
+        // what restoring each band reports before any damage (interrupted versions may report
+        // entries that have no directory above them), with the output directory masked
+        let base_errors: BTreeMap<u32, Vec<String>> = s
             .bands
             .iter()
-            .map(|b| (*b, base_rep["bands"][b.to_string()]["restore"]["errors"].as_u64().unwrap_or(0)))
+            .map(|b| {
+                let texts = base_rep["bands"][b.to_string()]["restore"]["error_text"]
+                    .as_array()
+                    .map(|a| a.iter().filter_map(|v| v.as_str()).map(|t| mask_out(t, &base_out)).collect())
+                    .unwrap_or_default();
+                (*b, texts)
+            })
             .collect();
         run.count("archives", 1);
         let flips = tier.pick(2, 6);
@@ -445,7 +472,7 @@ pub fn run(tier: Tier, replay: Option<Value>) -> i32 {
             let sel: Vec<(usize, &Damage)> = damages
                 .iter()
                 .enumerate()
-                .filter(|(_, d)| matches!(d.action, Action::Garbage | Action::BitFlip(_) | Action::TruncateHalf))
+                .filter(|(_, d)| matches!(d.action, Action::Garbage | Action::BitFlip(_) | Action::JsonFlip(_) | Action::TruncateHalf))
                 .filter(|(i, _)| tier == Tier::Thorough || i % 9 == 0)
                 .take(tier.pick(8, 100))
                 .collect();
@@ -471,7 +498,7 @@ pub fn run(tier: Tier, replay: Option<Value>) -> i32 {
         &[("damaged_archives_run", 200), ("children_completed", 150), ("untouched_entries_compared", 1000), ("touched_entries_judged", 50), ("followup_backups_judged", 50)]
     };
     run.finish(
-        "archives with 2-4 bands (complete, interrupted in the middle, interrupted newest) sharing blocks; EVERY file except CONSERVE x {delete (not BANDTAIL), truncate 0, truncate half, seeded garbage} + seeded bit flips in every file; each damaged archive is given to a child process that lists versions (band info, sizes), lists and restores every band, validates fully and quickly, backs up the source again and restores that; the parent requires: normal termination (panic, abort, signal = violation; more than 1000x the fault-free number of storage operations = violation; 120 s wall clock = inconclusive); every version other than one whose own BANDHEAD was damaged still opens; each entry whose hunk, that hunk's BANDHEAD and blocks are untouched is restored exactly; entries whose hunk or block is now missing or undecodable are restored exactly or the restore reports an error (the vanished last hunk of an incomplete band excepted: indistinguishable from an earlier interruption); after delete / truncate-to-0 the new backup completes and restores the source exactly. Auxiliary sanitizer pass: garbage / bit-flip / half-truncated cases of two archives (8 in quick, 100 per archive in thorough) are replayed with the child under valgrind memcheck (--error-exitcode=99); a report is judged like a crash.",
+        "archives with 2-4 bands (complete, interrupted in the middle, interrupted newest) sharing blocks; EVERY file except CONSERVE x {delete (not BANDTAIL), truncate 0, truncate half, seeded garbage} + seeded bit flips in every file + seeded single-bit flips in the uncompressed JSON of every hunk, head and tail that keep it decodable (the damage no checksum catches); each damaged archive is given to a child process that lists versions (band info, sizes), lists and restores every band, validates fully and quickly, backs up the source again and restores that; the parent requires: normal termination (panic, abort, signal = violation; more than 1000x the fault-free number of storage operations = violation; 120 s wall clock = inconclusive); every version other than one whose own BANDHEAD was damaged still opens; each entry whose hunk, that hunk's BANDHEAD and blocks are untouched is restored exactly; entries whose hunk or block is now missing or undecodable are restored exactly or the restore reports an error (the vanished last hunk of an incomplete band excepted: indistinguishable from an earlier interruption); after delete / truncate-to-0 the new backup completes and restores the source exactly. Auxiliary sanitizer pass: garbage / bit-flip / half-truncated cases of two archives (8 in quick, 100 per archive in thorough) are replayed with the child under valgrind memcheck (--error-exitcode=99); a report is judged like a crash.",
         &["hunks carry no checksum: a hunk that still decodes after damage imposes no content requirement", "the child and the parent are the same binary; the interceptor's operation count is the progress measure"],
         Some(true),
         needs,
